@@ -211,11 +211,11 @@ func (x *Exec) eval(env *Env, e CExpr) *Value {
 		case "int":
 			v, err := strconv.ParseInt(e.Val, 0, 64)
 			if err != nil {
-				u, err2 := strconv.ParseUint(e.Val, 0, 64)
-				if err2 != nil {
+				k := constant.MakeFromLiteral(e.Val, token.INT, 0)
+				if k.Kind() != constant.Int {
 					x.limit("bad integer literal %s", e.Val)
 				}
-				return &Value{Typ: types.Typ[types.UntypedInt], K: constant.MakeUint64(u)}
+				return &Value{Typ: types.Typ[types.UntypedInt], K: k}
 			}
 			return &Value{Typ: types.Typ[types.UntypedInt], K: constant.MakeInt64(v)}
 		case "bool":
@@ -822,7 +822,8 @@ func autoPattern(body string, vars []string) string {
 				used[v] = true
 			}
 		}
-		ok := head == "select" || head == "sat" || head == "slen" || head == "rune_at" || head == "rune_w" || strings.HasPrefix(head, "sp_") || head == "ssub" || head == "scat"
+		// spec functions with a body are define-funs (macro-expanded by the solver): useless as triggers
+		ok := head == "select" || head == "sat" || head == "slen" || head == "rune_at" || head == "rune_w" || (strings.HasPrefix(head, "sp_") && uninterpretedSpecs[head]) || head == "ssub" || head == "scat"
 		if ok && len(used) > 0 && !strings.Contains(t, "(forall ") && !strings.Contains(t, "(exists ") && !strings.Contains(t, "(ite ") {
 			cands = append(cands, cand{t, used})
 		}
@@ -832,8 +833,30 @@ func autoPattern(body string, vars []string) string {
 	if len(cands) == 0 {
 		return ""
 	}
-	// prefer small terms; greedily cover the variables
-	sort.Slice(cands, func(i, j int) bool { return len(cands[i].text) < len(cands[j].text) })
+	// prefer terms in which the bound variables occur as direct arguments (not under
+	// arithmetic, which e-matching handles badly), then small terms
+	clean := func(c cand) bool {
+		parts := splitSexp(c.text[1 : len(c.text)-1])
+		for v := range c.vars {
+			direct := false
+			for _, p := range parts[1:] {
+				if p == v {
+					direct = true
+				}
+			}
+			if !direct {
+				return false
+			}
+		}
+		return true
+	}
+	sort.SliceStable(cands, func(i, j int) bool {
+		ci, cj := clean(cands[i]), clean(cands[j])
+		if ci != cj {
+			return ci
+		}
+		return len(cands[i].text) < len(cands[j].text)
+	})
 	covered := map[string]bool{}
 	var chosen []string
 	for _, c := range cands {
@@ -1017,6 +1040,14 @@ func (x *Exec) evalCall(env *Env, c *CCall) *Value {
 		tn := c.Args[1].(*CLit).Val
 		t, _ := x.resolveType(tn, env.pkg)
 		return boolV(and(not(eq(x.term(a), "0")), eq(app("dyntype", x.term(a)), fmt.Sprint(x.typeID(t)))))
+	case "same":
+		// identity of two values (for floats: the same value, not IEEE ==)
+		a, b := arg(0), arg(1)
+		t := a.Typ
+		if t == nil || isUntyped(t) {
+			t = b.Typ
+		}
+		return boolV(eq(x.termAs(a, t), x.termAs(b, t)))
 	case "isnew":
 		// the object / backing array / map was allocated during this call
 		a := arg(0)
@@ -1111,6 +1142,9 @@ func (x *Exec) applyPure(env *Env, pf *PureFunc, c *CCall) *Value {
 
 func (x *Exec) pureName(pf *PureFunc) string { return "sp_" + pf.Name }
 
+// names (sp_...) of spec functions without a body
+var uninterpretedSpecs = map[string]bool{}
+
 func (x *Exec) declarePure(pf *PureFunc) {
 	name := x.pureName(pf)
 	if x.Reg.Has(name) {
@@ -1129,6 +1163,7 @@ func (x *Exec) declarePure(pf *PureFunc) {
 	}
 	rt, rs := x.resolveType(pf.Result, nil)
 	if pf.Body == nil {
+		uninterpretedSpecs[name] = true
 		x.Reg.Add(name, fmt.Sprintf("(declare-fun %s (%s) %s)", name, strings.Join(psorts, " "), rs))
 		return
 	}
